@@ -1,8 +1,9 @@
-(* GenC09.v — property C09 for the GENERATED sorter (GenSrc.v, regenerated from v4/agent/sorter.go): mergeArrays
-   computes Sorter.merge for EVERY ranker (the ranking function is the oracle [rank_ext rank], any function
-   A -> A -> comparison), in place in the caller's slice (written-back slice parameter).
-   Not part of the common build: compiled by ./check C09. *)
-From Verif Require Import Base Sorter Seq SeqProofs SorterProofs MiniGo GenSrc GenRep GenLib.
+(* GenC09.v — property C09 for the GENERATED sorter (GenSrc.v, regenerated from v4/agent/sorter.go), continuing
+   GenSort.v (mergeArrays = Sorter.merge; one chunk of a pass): the inner loop is Sorter.pass, the outer loop with the
+   exchange of the two arrays is Sorter.sort_loop, SortValues = Sorter.sort_values for EVERY ranker, in place in the
+   caller's slice; ReverseValues = Sorter.reverse_values; the Sort/Reverse methods of array_ and list_.
+   Not part of the common build: compiled by ./check C09 after GenSort.v. *)
+From Verif Require Import Base Sorter Seq SeqProofs SorterProofs MiniGo GenSrc GenRep GenLib GenSort.
 
 Section GenC09.
 Variable A : Type.
@@ -10,196 +11,260 @@ Variable zero : A.
 Variable rank : A -> A -> comparison.
 Notation ext := (rank_ext rank).
 Notation call_at F := (i_call (interp_at A zero ext prog F)).
+Notation seg := (GenSort.seg A).
+Notation wtag := (GenSort.wtag A).
 
-Lemma gen_RankValues a b F : 1 <= F ->
-  call_at F col_val id_RankValues [VElem a; VElem b] = ROk (VInt (rank_code (rank a b)), col_val).
-Proof. intros HF. fuel F 1. gocall. reflexivity. Qed.
+Section Pass.
+Variables (cls : val A) (t : bool) (B : list A) (n w : nat).
+Hypothesis HB : length B = n.
+Hypothesis HW : 1 <= w.
+Notation pi_run := (GenSort.pi_run A zero rank cls t B n w).
+Notation pi_env := (GenSort.pi_env A cls t B n w).
+Notation pi_exit := (GenSort.pi_exit A zero rank cls t B n w HB HW).
+Notation pi_step := (GenSort.pi_step A zero rank cls t B n w HB HW).
+Notation seg_length := (GenSort.seg_length A B n w HB HW).
 
-(* ---------- mergeArrays(left, right, merged) ---------- *)
-(* variables: v left right merged leftIndex leftLength rightIndex rightLength mergedIndex mergedLength *)
-Definition ma_loop : stmt := nth 6 (fn_body fn_sorter__mergeArrays) SBreak.
-Definition ma_cond : option expr := Eval cbv in match ma_loop with SFor _ c _ _ => c | _ => None end.
-Definition ma_body : list stmt := Eval cbv in match ma_loop with SFor _ _ _ b => b | _ => [] end.
-
-Section Merge.
-Variables (cls : val A) (L R : list A).
-Definition ma_env (li ri mi : nat) (M : list A) : env A :=
-  [(1%positive, srt_val cls); (2%positive, VSlice (elems L)); (3%positive, VSlice (elems R));
-   (4%positive, VTag 3 (VSlice (elems M))); (5%positive, VInt (Z.of_nat li)); (6%positive, VInt (Z.of_nat (length L)));
-   (7%positive, VInt (Z.of_nat ri)); (8%positive, VInt (Z.of_nat (length R))); (9%positive, VInt (Z.of_nat mi));
-   (10%positive, VInt (Z.of_nat (length M)))].
-Definition ma_run F li ri mi M := i_loop (interp_at A zero ext prog F) ma_cond None ma_body (ma_env li ri mi M).
-
-Ltac ma_enter F :=
-  unfold ma_run; rewrite loop_S; unfold loop_step; fuel F 40; unfold ma_cond, ma_body, ma_env, srt_val, ranker_val; gogo.
-
-Lemma ma_exit F li ri mi M : 40 <= F -> length M <= mi ->
-  ma_run (S F) li ri mi M = ROk (SgNormal, ma_env li ri mi M).
-Proof. intros HF H. ma_enter F. reflexivity. Qed.
-
-Lemma set_nth_length' (k : nat) (a : A) (M : list A) : length (set_nth k a M) = length M.
-Proof. apply set_nth_length. Qed.
-
-(* both sides still have values: the smaller head (the left one only when the ranker says Lesser) *)
-Lemma ma_step_both F li ri mi M : 40 <= F -> mi < length M -> li < length L -> ri < length R ->
-  ma_run (S F) li ri mi M =
-  match rank (nth li L zero) (nth ri R zero) with
-  | Lt => ma_run F (S li) ri (S mi) (set_nth mi (nth li L zero) M)
-  | _ => ma_run F li (S ri) (S mi) (set_nth mi (nth ri R zero) M)
-  end.
+Lemma firstn_min (k : nat) (l : list A) : firstn k l = firstn (Nat.min k (length l)) l.
 Proof.
-  intros HF HM HL HR. ma_enter F.
-  repeat (rewrite (zidx_elems A zero) by lia; gorun). rewrite gen_RankValues by lia. gorun. rewrite !Nat2Z.id.
-  destruct (rank (nth li L zero) (nth ri R zero)); cbn [rank_code]; gogo.
-  all: repeat (rewrite (zidx_elems A zero) by lia; gorun); rewrite zset_elems by lia; gorun; rewrite ?Nat2Z.id.
-  all: rewrite <- ?(set_nth_length' mi (nth li L zero) M), <- ?(set_nth_length' mi (nth ri R zero) M) at 2.
-  all: unfold ma_run, ma_cond, ma_body, ma_env, srt_val, ranker_val.
-  all: replace (Z.of_nat li + 1)%Z with (Z.of_nat (S li)) by lia; replace (Z.of_nat ri + 1)%Z with (Z.of_nat (S ri)) by lia;
-       replace (Z.of_nat mi + 1)%Z with (Z.of_nat (S mi)) by lia.
-  all: rewrite ?set_nth_length'; reflexivity.
+  destruct (le_gt_dec k (length l)); [rewrite Nat.min_l by lia; reflexivity|].
+  rewrite Nat.min_r by lia. rewrite !firstn_all2 by lia. reflexivity.
 Qed.
 
-(* only the left side has values left: the bulk copy copy(merged[mi:], left[li:]) *)
-Lemma ma_step_left F li ri mi M : 40 <= F -> mi < length M -> li < length L -> length R <= ri ->
-  length M - mi = length L - li ->
-  ma_run (S F) li ri mi M = ma_run F (S li) ri (S mi) (firstn mi M ++ skipn li L).
+(* the inner loop is Sorter.pass on the buffer, written chunk by chunk into values; k bounds the chunks left *)
+Lemma pi_sim : forall k left V T F, length V = n -> n <= left + k * (2 * w) -> k + n + 201 <= F ->
+  exists left' T', pi_run F V left T =
+    ROk (SgNormal, pi_env (firstn left V ++ pass rank k w (skipn left B)) left' ++ T').
 Proof.
-  intros HF HM HL HR HE. ma_enter F.
-  rewrite ?elems_length. rewrite zsub_elems by lia. gorun. rewrite ?elems_length. rewrite zsub_elems by lia. gorun.
-  rewrite zcopy_same by (rewrite !elems_length, !firstn_length, !skipn_length; lia).
-  rewrite ?elems_length. rewrite zsub_elems by lia. gorun. rewrite !elems_length, !firstn_length, !skipn_length.
-  match goal with |- context[Nat.eqb ?a ?b] => replace (Nat.eqb a b) with true by (symmetry; apply Nat.eqb_eq; lia) end.
-  gorun. rewrite zsplice_elems. rewrite skipn_all, app_nil_r. gorun.
-  replace (Z.to_nat (Z.of_nat (length L) - Z.of_nat li)) with (length L - li) by lia. rewrite Nat2Z.id.
-  rewrite (firstn_all2 (skipn li L)) by (rewrite skipn_length; lia).
-  assert (LM : length (firstn mi M ++ skipn li L) = length M) by (rewrite app_length, firstn_length, skipn_length; lia).
-  unfold ma_run, ma_cond, ma_body, ma_env, srt_val, ranker_val. rewrite LM.
-  replace (Z.of_nat li + 1)%Z with (Z.of_nat (S li)) by lia. replace (Z.of_nat mi + 1)%Z with (Z.of_nat (S mi)) by lia.
-  reflexivity.
+  induction k as [|k IH]; intros left V T F HV HK HF; (destruct F as [|F]; [lia|]).
+  - rewrite pi_exit by lia. cbn [pass]. rewrite skipn_all2, app_nil_r, firstn_all2 by lia. eexists _, _. reflexivity.
+  - destruct (le_gt_dec n left) as [HE|HE].
+    + rewrite pi_exit by lia. rewrite (skipn_all2 B) by lia. rewrite (pass_nil rank), app_nil_r, firstn_all2 by lia.
+      eexists _, _. reflexivity.
+    + set (middle := Nat.min (left + w) n). set (right := Nat.min (middle + w) n).
+      destruct (pi_step F V left T middle right eq_refl eq_refl ltac:(lia) HV ltac:(lia)) as [T1 ST]. rewrite ST.
+      set (M1 := merge rank (right - left) (seg B left middle) (seg B middle right)).
+      assert (LM1 : length M1 = right - left).
+      { unfold M1. rewrite (merge_length0 rank) by (rewrite !seg_length by lia; lia). rewrite !seg_length by lia. lia. }
+      set (V1 := firstn left V ++ M1 ++ skipn right V).
+      assert (LV1 : length V1 = n) by (unfold V1; rewrite !app_length, firstn_length, skipn_length, LM1; lia).
+      destruct (IH (left + 2 * w) V1 T1 F LV1 ltac:(lia) ltac:(lia)) as [left' [T' RUN]]. rewrite RUN.
+      exists left', T'. do 3 f_equal.
+      (* the list algebra: one chunk of Sorter.pass *)
+      assert (NE : skipn left B <> []) by (intros E; apply (f_equal (@length A)) in E; rewrite skipn_length in E; cbn in E; lia).
+      rewrite (pass_S_cons rank k w (skipn left B) NE).
+      assert (E1 : firstn w (skipn left B) = seg B left middle).
+      { unfold seg. rewrite firstn_min, skipn_length. f_equal. lia. }
+      assert (E2 : firstn w (skipn w (skipn left B)) = seg B middle right).
+      { rewrite (skipn_skipn' A). unfold seg. destruct (le_gt_dec (left + w) n).
+        - replace middle with (left + w) by lia. rewrite firstn_min, skipn_length. f_equal. lia.
+        - rewrite !(skipn_all2 B) by lia. destruct w, (right - middle); reflexivity. }
+      rewrite E1, E2, !seg_length by lia. replace (middle - left + (right - middle)) with (right - left) by lia. fold M1.
+      rewrite (skipn_skipn' A). replace (left + 2 * w) with (left + (w + w)) by lia.
+      replace (left + (w + w)) with (left + 2 * w) by lia.
+      unfold V1. f_equal.
+      assert (EF : firstn (left + 2 * w) (firstn left V ++ M1 ++ skipn right V) ++ pass rank k w (skipn (left + 2 * w) B) =
+                   (firstn left V ++ M1) ++ pass rank k w (skipn (left + 2 * w) B)).
+      { destruct (le_gt_dec (left + 2 * w) n) as [C|C].
+        - assert (right = left + 2 * w) by lia. f_equal.
+          rewrite app_assoc, firstn_app.
+          rewrite (firstn_all2 (firstn left V ++ M1)) by (rewrite app_length, firstn_length, LM1; lia).
+          rewrite app_length, firstn_length, LM1. replace (left + 2 * w - (Init.Nat.min left (length V) + (right - left))) with 0 by lia.
+          cbn [firstn]. apply app_nil_r.
+        - assert (right = n) by lia. rewrite (skipn_all2 V) by lia. rewrite app_nil_r.
+          rewrite firstn_all2 by (rewrite app_length, firstn_length, LM1; lia). reflexivity. }
+      rewrite EF, <- app_assoc. reflexivity.
+Qed.
+End Pass.
+
+(* ---------- the outer loop: "for width := 1; width < length; width *= 2 { pass; buffer, values = values, buffer }" ---------- *)
+Definition po_cond : option expr := Eval cbv in match sv_outer with SFor _ c _ _ => c | _ => None end.
+Definition po_post : option stmt := Eval cbv in match sv_outer with SFor _ _ p _ => p | _ => None end.
+Definition po_body : list stmt := Eval cbv in match sv_outer with SFor _ _ _ b => b | _ => [] end.
+
+Section Outer.
+Variables (cls : val A) (n : nat).
+(* X: what the variable buffer holds (the source of the next pass), Y: what values holds; t: the caller's array is
+   the one values holds *)
+Definition po_env (t : bool) (X Y : list A) (w : nat) : env A :=
+  [(1%positive, srt_val cls); (2%positive, wtag t (VSlice (elems Y))); (3%positive, VInt (Z.of_nat n));
+   (4%positive, wtag (negb t) (VSlice (elems X))); (5%positive, VInt (Z.of_nat w))].
+Definition po_run F t X Y w T := i_loop (interp_at A zero ext prog F) po_cond po_post po_body (po_env t X Y w ++ T).
+(* the variables of the inner loop, once declared, stay where they are: left is the first of them *)
+Definition tail_ok (T : env A) : Prop := T = [] \/ exists x T0, T = (6%positive, x) :: T0.
+
+Lemma po_exit F t X Y w T : 30 <= F -> n <= w ->
+  po_run (S F) t X Y w T = ROk (SgNormal, po_env t X Y w ++ T).
+Proof.
+  intros HF H. unfold po_run. rewrite loop_S; unfold loop_step. fuel F 30. unfold po_cond, po_post, po_body, po_env. gogo. reflexivity.
 Qed.
 
-Lemma ma_step_right F li ri mi M : 40 <= F -> mi < length M -> length L <= li -> ri < length R ->
-  length M - mi = length R - ri ->
-  ma_run (S F) li ri mi M = ma_run F li (S ri) (S mi) (firstn mi M ++ skipn ri R).
+Lemma po_step F t X Y w T : 2 * n + 300 <= F -> length X = n -> length Y = n -> 1 <= w -> w < n -> tail_ok T ->
+  exists T', po_run (S F) t X Y w T = po_run F (negb t) (pass rank n w X) X (2 * w) T' /\ tail_ok T'.
 Proof.
-  intros HF HM HL HR HE. ma_enter F.
-  rewrite ?elems_length. rewrite zsub_elems by lia. gorun. rewrite ?elems_length. rewrite zsub_elems by lia. gorun.
-  rewrite zcopy_same by (rewrite !elems_length, !firstn_length, !skipn_length; lia).
-  rewrite ?elems_length. rewrite zsub_elems by lia. gorun. rewrite !elems_length, !firstn_length, !skipn_length.
-  match goal with |- context[Nat.eqb ?a ?b] => replace (Nat.eqb a b) with true by (symmetry; apply Nat.eqb_eq; lia) end.
-  gorun. rewrite zsplice_elems. rewrite skipn_all, app_nil_r. gorun.
-  replace (Z.to_nat (Z.of_nat (length R) - Z.of_nat ri)) with (length R - ri) by lia. rewrite Nat2Z.id.
-  rewrite (firstn_all2 (skipn ri R)) by (rewrite skipn_length; lia).
-  assert (LM : length (firstn mi M ++ skipn ri R) = length M) by (rewrite app_length, firstn_length, skipn_length; lia).
-  unfold ma_run, ma_cond, ma_body, ma_env, srt_val, ranker_val. rewrite LM.
-  replace (Z.of_nat ri + 1)%Z with (Z.of_nat (S ri)) by lia. replace (Z.of_nat mi + 1)%Z with (Z.of_nat (S mi)) by lia.
-  reflexivity.
-Qed.
-
-Lemma skipn_S_tl (k : nat) (l : list A) : skipn (S k) l = tl (skipn k l).
-Proof.
-  revert l. induction k as [|k IH]; intros l.
-  - destruct l; reflexivity.
-  - destruct l as [|h t]; [rewrite !skipn_nil; reflexivity|]. cbn [skipn]. apply IH.
-Qed.
-
-(* after the bulk copy the rest of the loop copies the same values again: nothing changes any more *)
-Lemma ma_tail_left : forall k F li ri mi M, k = length L - li -> length R <= ri -> length M - mi = length L - li ->
-  mi <= length M -> skipn mi M = skipn li L -> k + 41 <= F ->
-  exists li', ma_run F li ri mi M = ROk (SgNormal, ma_env li' ri (length M) M).
-Proof.
-  induction k as [|k IH]; intros F li ri mi M HK HR HE HM HSk HF; (destruct F as [|F]; [lia|]).
-  - rewrite ma_exit by lia. assert (mi = length M) by lia. subst mi. eexists; reflexivity.
-  - rewrite ma_step_left by lia. rewrite <- HSk, firstn_skipn.
-    apply IH; try lia. rewrite !skipn_S_tl, HSk. reflexivity.
-Qed.
-Lemma ma_tail_right : forall k F li ri mi M, k = length R - ri -> length L <= li -> length M - mi = length R - ri ->
-  mi <= length M -> skipn mi M = skipn ri R -> k + 41 <= F ->
-  exists ri', ma_run F li ri mi M = ROk (SgNormal, ma_env li ri' (length M) M).
-Proof.
-  induction k as [|k IH]; intros F li ri mi M HK HL HE HM HSk HF; (destruct F as [|F]; [lia|]).
-  - rewrite ma_exit by lia. assert (mi = length M) by lia. subst mi. eexists; reflexivity.
-  - rewrite ma_step_right by lia. rewrite <- HSk, firstn_skipn.
-    apply IH; try lia. rewrite !skipn_S_tl, HSk. reflexivity.
-Qed.
-
-Lemma firstn_set_nth_S (mi : nat) (a : A) (M : list A) : mi < length M ->
-  firstn (S mi) (set_nth mi a M) = firstn mi M ++ [a].
-Proof.
-  revert mi. induction M as [|h t IH]; intros [|mi] H; cbn in *; try lia; try reflexivity.
-  rewrite IH by lia. reflexivity.
-Qed.
-
-(* the loop computes Sorter.merge: one unit of fuel per value still to be placed, plus a constant *)
-Lemma ma_sim : forall rem F li ri mi M, rem = length M - mi -> mi <= length M ->
-  length M - mi = (length L - li) + (length R - ri) -> li <= length L -> ri <= length R -> rem + 41 <= F ->
-  exists li' ri' M', ma_run F li ri mi M = ROk (SgNormal, ma_env li' ri' (length M') M') /\
-    M' = firstn mi M ++ merge rank rem (skipn li L) (skipn ri R) /\ length M' = length M.
-Proof.
-  induction rem as [|rem IH]; intros F li ri mi M HR HM HE HL HRr HF; (destruct F as [|F]; [lia|]).
-  - rewrite ma_exit by lia. assert (mi = length M) by lia. subst mi.
-    exists li, ri, M. cbn [merge]. rewrite firstn_all, app_nil_r. repeat split; reflexivity.
-  - destruct (Nat.lt_ge_cases li (length L)) as [HLl|HLl]; destruct (Nat.lt_ge_cases ri (length R)) as [HRl|HRl].
-    + rewrite ma_step_both by lia.
-      rewrite (skipn_cons_nth A li L zero) by lia. rewrite (skipn_cons_nth A ri R zero) by lia.
-      destruct (merge_cases rank rem (nth li L zero) (skipn (S li) L) (nth ri R zero) (skipn (S ri) R)) as [[E1 E2]|[E1 E2]];
-        rewrite E2.
-      * rewrite E1.
-        destruct (IH F (S li) ri (S mi) (set_nth mi (nth li L zero) M)) as [li' [ri' [M' [RUN [EM LM]]]]];
-          try (rewrite ?set_nth_length; lia).
-        exists li', ri', M'. split; [exact RUN|]. rewrite set_nth_length in LM. split; [|exact LM].
-        rewrite EM, firstn_set_nth_S by lia. rewrite <- app_assoc. cbn [app].
-        rewrite <- (skipn_cons_nth A ri R zero) by lia. reflexivity.
-      * assert (EQ : ma_run F li (S ri) (S mi) (set_nth mi (nth ri R zero) M) =
-                     match rank (nth li L zero) (nth ri R zero) with
-                     | Lt => ma_run F (S li) ri (S mi) (set_nth mi (nth li L zero) M)
-                     | _ => ma_run F li (S ri) (S mi) (set_nth mi (nth ri R zero) M) end)
-          by (destruct (rank (nth li L zero) (nth ri R zero)); [reflexivity|contradiction|reflexivity]).
-        rewrite <- EQ.
-        destruct (IH F li (S ri) (S mi) (set_nth mi (nth ri R zero) M)) as [li' [ri' [M' [RUN [EM LM]]]]];
-          try (rewrite ?set_nth_length; lia).
-        exists li', ri', M'. split; [exact RUN|]. rewrite set_nth_length in LM. split; [|exact LM].
-        rewrite EM, firstn_set_nth_S by lia. rewrite <- app_assoc. cbn [app].
-        rewrite <- (skipn_cons_nth A li L zero) by lia. reflexivity.
-    + (* right exhausted *)
-      rewrite (skipn_all2 R) by lia. rewrite (skipn_cons_nth A li L zero) by lia. cbn [merge].
-      rewrite <- (skipn_cons_nth A li L zero) by lia.
-      rewrite ma_step_left by lia.
-      set (M1 := firstn mi M ++ skipn li L).
-      assert (L1 : length M1 = length M) by (unfold M1; rewrite app_length, firstn_length, skipn_length; lia).
-      destruct (ma_tail_left (length L - S li) F (S li) ri (S mi) M1) as [li' RUN]; try lia.
-      { unfold M1. rewrite skipn_app, firstn_length. replace (S mi - Init.Nat.min mi (length M)) with 1 by lia.
-        rewrite skipn_all2 by (rewrite firstn_length; lia). cbn [app]. rewrite (skipn_S_tl li L).
-        destruct (skipn li L); reflexivity. }
-      exists li', ri, M1. rewrite L1 in RUN. split; [rewrite L1; exact RUN|]. split; [reflexivity|exact L1].
-    + (* left exhausted *)
-      rewrite (skipn_all2 L) by lia. cbn [merge].
-      rewrite ma_step_right by lia.
-      set (M1 := firstn mi M ++ skipn ri R).
-      assert (L1 : length M1 = length M) by (unfold M1; rewrite app_length, firstn_length, skipn_length; lia).
-      destruct (ma_tail_right (length R - S ri) F li (S ri) (S mi) M1) as [ri' RUN]; try lia.
-      { unfold M1. rewrite skipn_app, firstn_length. replace (S mi - Init.Nat.min mi (length M)) with 1 by lia.
-        rewrite skipn_all2 by (rewrite firstn_length; lia). cbn [app]. rewrite (skipn_S_tl ri R).
-        destruct (skipn ri R); reflexivity. }
-      exists li, ri', M1. rewrite L1 in RUN. split; [rewrite L1; exact RUN|]. split; [reflexivity|exact L1].
-    + lia.
-Qed.
-End Merge.
-
-(* mergeArrays(left, right, merged) with len(merged) = len(left) + len(right): merged becomes Sorter.merge left right,
-   handed back to the caller as written-back parameter 3; the sorter itself is unchanged *)
-Lemma gen_mergeArrays cls L R M F : length M = length L + length R -> length M + 80 <= F ->
-  call_at F (srt_val cls) id_mergeArrays [VSlice (elems L); VSlice (elems R); VSlice (elems M)] =
-  ROk (VTuple [], VWb (srt_val cls) [(3, VSlice (elems (merge rank (length M) L R)))]).
-Proof.
-  intros HM HF. fuel F 30. gocall. rewrite ?elems_length.
+  intros HF HX HY HW HL HT.
+  unfold po_run. rewrite loop_S; unfold loop_step. fuel F 40. unfold po_cond, po_post, po_body, po_env.
+  assert (S6 : exists T0, set 6%positive (VInt 0) T = (6%positive, VInt 0) :: T0 :> env A).
+  { destruct HT as [->|[x [T0 ->]]]; eexists; reflexivity. }
+  destruct S6 as [T0 S6].
+  gogo. rewrite S6.
   match goal with |- context[i_loop (interp_at A zero ext prog ?FF) ?c ?p ?b ?en] =>
-    destruct (ma_sim cls L R (length M) FF 0 0 0 M ltac:(lia) ltac:(lia) ltac:(lia) ltac:(lia) ltac:(lia) ltac:(lia))
-      as [li' [ri' [M' [RUN [EM LM]]]]];
-    change (i_loop (interp_at A zero ext prog FF) c p b en) with (ma_run cls L R FF 0 0 0 M)
+    destruct (pi_sim cls t X n w HX HW n 0 Y T0 FF HY ltac:(nia) ltac:(lia)) as [left' [T1 RUN]];
+    change (i_loop (interp_at A zero ext prog FF) c p b en) with (GenSort.pi_run A zero rank cls t X n w FF Y 0 T0)
   end.
-  rewrite RUN. unfold ma_env. gorun. cbn [firstn skipn app] in EM. subst M'. reflexivity.
+  rewrite RUN. cbn [firstn skipn app]. unfold GenSort.pi_env, GenSort.wtag.
+  destruct t; cbn [negb]; gorun.
+  all: eexists; split; [replace (Z.of_nat w * 2)%Z with (Z.of_nat (2 * w)) by lia; reflexivity|right; eexists _, _; reflexivity].
 Qed.
+
+(* the passes are Sorter.sort_loop; [f] is the model's fuel, enough for the width to reach n (n <= w * 2^f) *)
+Lemma po_sim : forall f w t X Y T F, length X = n -> length Y = n -> 1 <= w -> n <= w * 2 ^ f -> tail_ok T ->
+  f + 2 * n + 301 <= F ->
+  exists t' Y' w' T', po_run F t X Y w T = ROk (SgNormal, po_env t' (sort_loop rank f w X) Y' w' ++ T') /\ length Y' = n.
+Proof.
+  induction f as [|f IH]; intros w t X Y T F HX HY HW HE HT HF; (destruct F as [|F]; [lia|]); cbn [sort_loop].
+  - rewrite po_exit by (cbn in HE; lia). eexists _, _, _, _. split; [reflexivity|exact HY].
+  - rewrite HX. destruct (Nat.ltb_spec w n) as [HL|HL].
+    + destruct (po_step F t X Y w T ltac:(lia) HX HY HW HL HT) as [T1 [ST HT1]]. rewrite ST.
+      apply IH; try assumption; try lia.
+      * rewrite (pass_length0 rank). exact HX.
+      * cbn [Nat.pow] in HE. nia.
+    + rewrite po_exit by lia. eexists _, _, _, _. split; [reflexivity|exact HY].
+Qed.
+End Outer.
+
+Lemma pow2_ge (n : nat) : n <= 1 * 2 ^ n.
+Proof. pose proof (Nat.pow_gt_lin_r 2 n ltac:(lia)). lia. Qed.
+
+(* sortValues(values) = Sorter.sort_values, in place: handed back as written-back parameter 1 *)
+Lemma gen_sortValues cls (tg : bool) V F : (Z.of_nat (length V) < two63)%Z -> 3 * length V + 400 <= F ->
+  call_at F (srt_val cls) id_sortValues [wtag tg (VSlice (elems V))] =
+  ROk (VTuple [], VWb (srt_val cls) [(1, VSlice (elems (sort_values rank V)))]).
+Proof.
+  intros HL HF. unfold sort_values. fuel F 60. destruct tg; cbn [GenSort.wtag]; gocall; rewrite !elems_length; gogo.
+  all: rewrite Nat2Z.id; rewrite zcopy_same by (rewrite repeat_length, elems_length; reflexivity).
+  all: match goal with |- context[i_loop (interp_at A zero ext prog ?FF) ?c ?p ?b ?en] =>
+    destruct (po_sim cls (length V) (length V) 1 true V V [] FF eq_refl eq_refl ltac:(lia) (pow2_ge _) ltac:(left; reflexivity) ltac:(lia))
+      as [t' [Y' [w' [T' [RUN LY]]]]];
+    change (i_loop (interp_at A zero ext prog FF) c p b en) with (po_run cls (length V) FF true V V 1 [])
+  end.
+  all: rewrite RUN; unfold po_env, GenSort.wtag.
+  all: assert (LS : length (sort_loop rank (length V) 1 V) = length V) by apply (sort_length A rank V).
+  all: destruct t'; cbn [negb]; gorun.
+  all: rewrite ?zcopy_same by (rewrite !elems_length; unfold sort_values in LS; lia); reflexivity.
+Qed.
+
+Lemma gen_SortValues cls V F : (Z.of_nat (length V) < two63)%Z -> 3 * length V + 420 <= F ->
+  call_at F (srt_val cls) id_SortValues [VSlice (elems V)] =
+  ROk (VTuple [], VWb (srt_val cls) [(1, VSlice (elems (sort_values rank V)))]).
+Proof.
+  intros HL HF. fuel F 10. gocall. rewrite (gen_sortValues cls true V) by lia. gorun. reflexivity.
+Qed.
+
+(* ---------- ReverseValues: "for index := 0; index < half; index++ { values[index], values[length-index-1] = .. }" ---------- *)
+Definition rv_loop : stmt := nth 2 (fn_body fn_sorter__ReverseValues) SBreak.
+Definition rv_cond : option expr := Eval cbv in match rv_loop with SFor _ c _ _ => c | _ => None end.
+Definition rv_post : option stmt := Eval cbv in match rv_loop with SFor _ _ p _ => p | _ => None end.
+Definition rv_body : list stmt := Eval cbv in match rv_loop with SFor _ _ _ b => b | _ => [] end.
+Definition rv_env cls (n half : nat) (V : list A) (idx : nat) : env A :=
+  [(1%positive, srt_val cls); (2%positive, VTag 1 (VSlice (elems V))); (3%positive, VInt (Z.of_nat n));
+   (4%positive, VInt (Z.of_nat half)); (5%positive, VInt (Z.of_nat idx))].
+Definition rv_run cls n half F V idx := i_loop (interp_at A zero ext prog F) rv_cond rv_post rv_body (rv_env cls n half V idx).
+
+Lemma rv_exit cls n half F V idx : 30 <= F -> half <= idx ->
+  rv_run cls n half (S F) V idx = ROk (SgNormal, rv_env cls n half V idx).
+Proof.
+  intros HF H. unfold rv_run. rewrite loop_S; unfold loop_step. fuel F 30. unfold rv_cond, rv_post, rv_body, rv_env. gogo. reflexivity.
+Qed.
+
+Lemma rv_step cls n half F V idx (d : A) : 40 <= F -> length V = n -> idx < half -> 2 * half <= n ->
+  rv_run cls n half (S F) V idx = rv_run cls n half F (swap_nth d idx (n - idx - 1) V) (S idx).
+Proof.
+  intros HF HV HI HH. unfold rv_run. rewrite loop_S; unfold loop_step. fuel F 40. unfold rv_cond, rv_post, rv_body, rv_env. gogo.
+  rewrite (zidx_elems A zero) by lia. gorun. rewrite (zidx_elems A zero) by lia. gorun.
+  rewrite zset_elems by lia. gorun. rewrite zset_elems by (rewrite set_nth_length; lia). gorun.
+  unfold swap_nth.
+  replace (Z.to_nat (Z.of_nat n - Z.of_nat idx - 1)) with (n - idx - 1) by lia. rewrite Nat2Z.id.
+  rewrite (nth_indep V zero d) by lia. rewrite (nth_indep V zero d) by lia.
+  replace (Z.of_nat idx + 1)%Z with (Z.of_nat (S idx)) by lia. reflexivity.
+Qed.
+
+Lemma rv_sim cls n half (d : A) : forall k F V idx, length V = n -> 2 * half <= n -> k = half - idx -> idx <= half -> k + 41 <= F ->
+  exists idx', rv_run cls n half F V idx = ROk (SgNormal, rv_env cls n half (reverse_loop d k idx V) idx').
+Proof.
+  induction k as [|k IH]; intros F V idx HV HH HK HI HF; (destruct F as [|F]; [lia|]); cbn [reverse_loop].
+  - rewrite rv_exit by lia. eexists; reflexivity.
+  - rewrite (rv_step cls n half F V idx d) by lia. rewrite HV.
+    apply IH; try lia. rewrite swap_nth_length. exact HV.
+Qed.
+
+Lemma quot2 (s : nat) : Z.quot (Z.of_nat s) 2 = Z.of_nat (s / 2).
+Proof. rewrite Z.quot_div_nonneg by lia. rewrite (Nat2Z.inj_div s 2). reflexivity. Qed.
+
+Lemma gen_ReverseValues cls (tg : bool) V F : length V + 100 <= F ->
+  call_at F (srt_val cls) id_ReverseValues [wtag tg (VSlice (elems V))] =
+  ROk (VTuple [], VWb (srt_val cls) [(1, VSlice (elems (reverse_values V)))]).
+Proof.
+  intros HF. fuel F 40. destruct V as [|d V'].
+  - destruct tg; cbn [GenSort.wtag]; gocall; gogo; reflexivity.
+  - change (reverse_values (d :: V')) with (reverse_loop d (length (d :: V') / 2) 0 (d :: V')).
+    remember (d :: V') as V eqn:EV. clear EV V'.
+    destruct tg; cbn [GenSort.wtag]; gocall; rewrite !elems_length; gogo.
+    all: rewrite ?quot2.
+    all: match goal with |- context[i_loop (interp_at A zero ext prog ?FF) ?c ?p ?b ?en] =>
+      destruct (rv_sim cls (length V) (length V / 2) d (length V / 2) FF V 0 eq_refl
+                  ltac:(pose proof (Nat.div_mod (length V) 2 ltac:(lia)); lia) ltac:(lia) ltac:(lia)
+                  ltac:(pose proof (Nat.div_le_upper_bound (length V) 2 (length V) ltac:(lia) ltac:(lia)); lia)) as [idx' RUN];
+      change (i_loop (interp_at A zero ext prog FF) c p b en) with (rv_run cls (length V) (length V / 2) FF V 0)
+    end.
+    all: rewrite RUN; unfold rv_env; gorun; reflexivity.
+Qed.
+
+(* ---------- the Sort / Reverse methods of array_ and list_: delegation to a sorter ---------- *)
+Lemma gen_SortValues_arr cls V F : (Z.of_nat (length V) < two63)%Z -> 3 * length V + 420 <= F ->
+  call_at F (srt_val cls) id_SortValues [arr_val V] =
+  ROk (VTuple [], VWb (srt_val cls) [(1, VSlice (elems (sort_values rank V)))]).
+Proof.
+  intros HL HF. fuel F 10. gocall. rewrite (gen_sortValues cls true V) by lia. gorun. reflexivity.
+Qed.
+Lemma gen_ReverseValues_arr cls V F : length V + 100 <= F ->
+  call_at F (srt_val cls) id_ReverseValues [arr_val V] =
+  ROk (VTuple [], VWb (srt_val cls) [(1, VSlice (elems (reverse_values V)))]).
+Proof.
+  intros HF. pose proof (gen_ReverseValues cls false V F HF) as G. cbn [GenSort.wtag] in G.
+  rewrite <- G. fuel F 2. gored. rewrite !call_S. gorun. reflexivity.
+Qed.
+
+Lemma sort_values_small (V : list A) : length V <= 1 -> sort_values rank V = V.
+Proof. destruct V as [|a [|b V']]; cbn; try reflexivity; lia. Qed.
+
+Lemma gen_array_SortValuesWithRanker V F : (Z.of_nat (length V) < two63)%Z -> 3 * length V + 460 <= F ->
+  call_at F (arr_val V) id_SortValuesWithRanker [ranker_val] = ROk (VTuple [], arr_val (sort_values rank V)).
+Proof.
+  intros HL HF. fuel F 30. gocall. gocall. rewrite elems_length. gogo.
+  - gocall. cbn [map]. gorun. rewrite (gen_SortValues_arr VNil V) by lia. gorun. reflexivity.
+  - rewrite sort_values_small by lia. reflexivity.
+Qed.
+
+Lemma gen_array_SortValues V F : (Z.of_nat (length V) < two63)%Z -> 3 * length V + 480 <= F ->
+  call_at F (arr_val V) id_SortValues [] = ROk (VTuple [], arr_val (sort_values rank V)).
+Proof.
+  intros HL HF. fuel F 15. gocall. gocall. rewrite gen_array_SortValuesWithRanker by lia. gorun. reflexivity.
+Qed.
+
+Lemma gen_array_ReverseValues V F : length V + 140 <= F ->
+  call_at F (arr_val V) id_ReverseValues [] = ROk (VTuple [], arr_val (reverse_values V)).
+Proof.
+  intros HF. fuel F 30. gocall. gocall. gocall. gocall. cbn [map]. gorun.
+  rewrite (gen_ReverseValues_arr VNil V) by lia. gorun. reflexivity.
+Qed.
+
+Lemma gen_list_SortValues nn V F : (Z.of_nat (length V) < two63)%Z -> 3 * length V + 500 <= F ->
+  call_at F (lst_val nn V) id_SortValues [] = ROk (VTuple [], lst_val nn (sort_values rank V)).
+Proof. intros HL HF. fuel F 10. gocall. rewrite gen_array_SortValues by lia. gorun. reflexivity. Qed.
+
+Lemma gen_list_ReverseValues nn V F : length V + 160 <= F ->
+  call_at F (lst_val nn V) id_ReverseValues [] = ROk (VTuple [], lst_val nn (reverse_values V)).
+Proof. intros HF. fuel F 10. gocall. rewrite gen_array_ReverseValues by lia. gorun. reflexivity. Qed.
 End GenC09.
 
 (* ---------- statements for the generated code (closed by [exact]) ---------- *)
@@ -241,3 +306,87 @@ Proof. split; vm_compute; reflexivity. Qed.
 
 Print Assumptions C09_gen_merge_arrays_is_the_model_merge.
 Print Assumptions C09_gen_merge_arrays_permutes.
+
+(* SortValues, as translated from sorter.go, for EVERY ranking function: it terminates (fuel 3 len + 420), leaves the
+   sorter unchanged and hands back (written-back parameter 1, the caller's slice) Sorter.sort_values *)
+Theorem C09_gen_sort_is_the_model_sort :
+  forall (A : Type) (zero : A) (rank : A -> A -> comparison) (cls : val A) (V : list A) (F : nat),
+    (Z.of_nat (length V) < two63)%Z -> 3 * length V + 420 <= F ->
+    run_method A zero (rank_ext rank) prog F (srt_val cls) id_SortValues [VSlice (elems V)] =
+    Ret (VTuple [], VWb (srt_val cls) [(1, VSlice (elems (sort_values rank V)))]).
+Proof.
+  intros A zero rank cls V F HL HF. unfold run_method, call_at. rewrite gen_SortValues by assumption. reflexivity.
+Qed.
+
+(* C09, first clause, for the generated code: for every ranker (consistent or not) SortValues returns and what it
+   leaves in the caller's slice is a permutation of what was there *)
+Theorem C09_gen_sort_terminates_and_permutes_for_every_ranker :
+  forall (A : Type) (zero : A) (rank : A -> A -> comparison) (cls : val A) (V : list A) (F : nat),
+    (Z.of_nat (length V) < two63)%Z -> 3 * length V + 420 <= F ->
+    exists V', run_method A zero (rank_ext rank) prog F (srt_val cls) id_SortValues [VSlice (elems V)] =
+               Ret (VTuple [], VWb (srt_val cls) [(1, VSlice (elems V'))]) /\ Permutation.Permutation V' V.
+Proof.
+  intros A zero rank cls V F HL HF. eexists. split.
+  - apply C09_gen_sort_is_the_model_sort; assumption.
+  - apply sort_perm.
+Qed.
+
+(* under a total preorder the result is ascending *)
+Theorem C09_gen_sort_sorted_for_total_preorders :
+  forall (A : Type) (zero : A) (rank : A -> A -> comparison), total_preorder rank ->
+  forall (cls : val A) (V : list A) (F : nat),
+    (Z.of_nat (length V) < two63)%Z -> 3 * length V + 420 <= F ->
+    exists V', run_method A zero (rank_ext rank) prog F (srt_val cls) id_SortValues [VSlice (elems V)] =
+               Ret (VTuple [], VWb (srt_val cls) [(1, VSlice (elems V'))]) /\
+               Sorted.Sorted (not_gt rank) V' /\ Permutation.Permutation V' V.
+Proof.
+  intros A zero rank TP cls V F HL HF. eexists. split; [|split].
+  - apply C09_gen_sort_is_the_model_sort; assumption.
+  - apply sort_sorted. exact TP.
+  - apply sort_perm.
+Qed.
+
+(* ReverseValues reverses in place, and twice is the identity *)
+Theorem C09_gen_reverse_is_rev_and_involutive :
+  forall (A : Type) (zero : A) (rank : A -> A -> comparison) (cls : val A) (V : list A) (F : nat),
+    length V + 100 <= F ->
+    run_method A zero (rank_ext rank) prog F (srt_val cls) id_ReverseValues [VSlice (elems V)] =
+      Ret (VTuple [], VWb (srt_val cls) [(1, VSlice (elems (rev V)))]) /\
+    run_method A zero (rank_ext rank) prog F (srt_val cls) id_ReverseValues [VSlice (elems (rev V))] =
+      Ret (VTuple [], VWb (srt_val cls) [(1, VSlice (elems V))]).
+Proof.
+  intros A zero rank cls V F HF. unfold run_method, call_at.
+  rewrite (gen_ReverseValues A zero rank cls false V) by assumption.
+  rewrite (gen_ReverseValues A zero rank cls false (rev V)) by (rewrite rev_length; assumption).
+  rewrite !reverse_spec, rev_involutive. split; reflexivity.
+Qed.
+
+(* the Sort / Reverse methods of Array and List (fresh default collator = the oracle) *)
+Theorem C09_gen_collections_sort_and_reverse :
+  forall (A : Type) (zero : A) (rank : A -> A -> comparison) (n : val A) (V : list A) (F : nat),
+    (Z.of_nat (length V) < two63)%Z -> 3 * length V + 500 <= F ->
+    run_method A zero (rank_ext rank) prog F (arr_val V) id_SortValues [] = Ret (VTuple [], arr_val (sort_values rank V)) /\
+    run_method A zero (rank_ext rank) prog F (lst_val n V) id_SortValues [] = Ret (VTuple [], lst_val n (sort_values rank V)) /\
+    run_method A zero (rank_ext rank) prog F (arr_val V) id_ReverseValues [] = Ret (VTuple [], arr_val (rev V)) /\
+    run_method A zero (rank_ext rank) prog F (lst_val n V) id_ReverseValues [] = Ret (VTuple [], lst_val n (rev V)).
+Proof.
+  intros A zero rank n V F HL HF. unfold run_method, call_at.
+  rewrite gen_array_SortValues, gen_list_SortValues, gen_array_ReverseValues, gen_list_ReverseValues by (assumption || lia).
+  rewrite !reverse_spec. repeat split.
+Qed.
+
+(* non-vacuity: sorting [3;1;2;3;0] in place under the order of Z and under the inconsistent ranker "always lesser" *)
+Example C09_gen_sort_example :
+  run_method Z 0%Z (rank_ext Z.compare) prog 500 (srt_val VNil) id_SortValues [VSlice (elems [3; 1; 2; 3; 0]%Z)] =
+    Ret (VTuple [], VWb (srt_val VNil) [(1%nat, VSlice (elems [0; 1; 2; 3; 3]%Z))]) /\
+  exists V', run_method Z 0%Z (rank_ext (fun _ _ => Lt)) prog 500 (srt_val VNil) id_SortValues [VSlice (elems [3; 1; 2; 3; 0]%Z)] =
+    Ret (VTuple [], VWb (srt_val VNil) [(1%nat, VSlice (elems V'))]) /\ Permutation.Permutation V' [3; 1; 2; 3; 0]%Z.
+Proof.
+  split; [vm_compute; reflexivity|]. apply C09_gen_sort_terminates_and_permutes_for_every_ranker; [vm_compute; reflexivity|vm_compute; lia].
+Qed.
+
+Print Assumptions C09_gen_sort_is_the_model_sort.
+Print Assumptions C09_gen_sort_terminates_and_permutes_for_every_ranker.
+Print Assumptions C09_gen_sort_sorted_for_total_preorders.
+Print Assumptions C09_gen_reverse_is_rev_and_involutive.
+Print Assumptions C09_gen_collections_sort_and_reverse.
